@@ -65,6 +65,10 @@ def main():
         meta["checks"] = verdicts
         meta["ran"] = [f"patch -p1 < patch.diff on a copy of /repo@{meta['repo_head']}", "pytest (repository suite) on the patched copy",
                        "demo.py on the clean and the patched copy", *[f"VERIF_REPO=<patched copy> ./check {p} {tier}" for p in [pid] + also]]
+        if "--no-file" in sys.argv:
+            for p, v in verdicts.items():
+                print(f"{v['verdict']} seeded {slug} by {p} {tier} in {v['wall_s']}s subs={v['subchecks']}")
+            return 0
         out_dir = os.path.join(V, "seeded", f"{pid}-{slug}")
         os.makedirs(out_dir, exist_ok=True)
         for f in ("patch.diff", "demo.py", "notes.md"):
